@@ -175,3 +175,16 @@ Definition sres {A} (f : A -> sexp) (r : res A) : sexp :=
   | Ok a => SList [SNum 1; f a]
   | Err e => SList [SNum 0; SNum (err_code e)]
   end.
+
+(* a Python str: "hex" when all code points < 256, else a list of numbers *)
+Definition as_str (s : sexp) : option (list N) :=
+  match s with
+  | SBytes b => Some b
+  | SList l => map_opt as_N l
+  | SNum _ => None
+  end.
+
+Definition sstr (s : list N) : sexp :=
+  if forallb (fun c => N.ltb c 256) s then SBytes s else SList (map sN s).
+
+Definition bad : sexp := SList [SNum (-1)].
